@@ -51,6 +51,9 @@ CEX_GROUPS = {
 TARGET = os.path.join(VERIF, "native", "target")
 
 
+# feature bucket -> source files whose private functions its groups call
+BUCKETS = {"vx_cmp": ["src/query/comparison.rs"], "vx_seg": ["src/query/segment.rs"], "vx_sel": ["src/query/selector.rs"],
+           "vx_fn": ["src/query/test_function.rs"], "vx_ptr": ["src/query/state.rs"]}
 STD_SHAPES = ["vf_chain_collect", "vf_zip_all", "vf_enumerate_map_collect", "vf_into_map_collect", "vf_iter_map_collect", "vf_flat_map_collect_raw", "vf_iter_any", "vf_iter_all",
               "vf_enumerate_filter_map_collect_raw", "vf_filter_map_collect_raw", "vf_iter_fold", "vf_map_reduce_or", "vf_chars_count", "vf_str_lt"]
 
@@ -87,11 +90,15 @@ def build(run) -> str | None:
         for m in MODULES:
             f.write(open(os.path.join(VERIF, "native", m)).read())
         f.write("\n}\n")
+    # feature buckets: the groups that call PRIVATE functions of one source file (through the appended exports) are compiled only when
+    # that bucket is on; if the tree changed such a function's signature, the bucket is dropped and only its groups become unavailable
+    ct = os.path.join(crate, "Cargo.toml")
+    toml = open(ct).read()
+    feat = "".join(f"{b} = []\n" for b in BUCKETS)
+    toml = toml.replace("[features]\n", "[features]\n" + feat, 1) if re.search(r"(?m)^\[features\]$", toml) else toml + "\n[features]\n" + feat
+    open(ct, "w").write(toml)
     runner = os.path.join(run.scratch, "native-runner")
     os.makedirs(os.path.join(runner, "src"), exist_ok=True)
-    with open(os.path.join(runner, "Cargo.toml"), "w") as f:
-        f.write('[package]\nname = "verif-native-runner"\nversion = "0.0.0"\nedition = "2021"\n\n[dependencies]\n'
-                'jsonpath-rust = { path = "../native-crate" }\n\n[profile.dev]\nopt-level = 1\noverflow-checks = true\ndebug = false\n')
     with open(os.path.join(runner, "src/main.rs"), "w") as f:
         f.write("fn main() { jsonpath_rust::query::verif_native::main() }\n")
     lock = os.path.join(run.repo.root, "Cargo.lock")
@@ -104,17 +111,40 @@ def build(run) -> str | None:
     # this run's scratch directory under a lock, so that concurrent checks (other trees!) never run each other's binary
     import fcntl, shutil
     os.makedirs(TARGET, exist_ok=True)
-    with open(os.path.join(TARGET, ".verif-lock"), "w") as lock:
-        fcntl.flock(lock, fcntl.LOCK_EX)
-        p = subprocess.run(["cargo", "build", "--offline", "-q"], cwd=runner, env=env, capture_output=True, text=True)
-        built = os.path.join(TARGET, "debug", "verif-native-runner")
-        if p.returncode == 0:
-            shutil.copy2(built, os.path.join(run.scratch, "verif-native-runner"))
-        fcntl.flock(lock, fcntl.LOCK_UN)
+
+    def attempt(on: list) -> subprocess.CompletedProcess:
+        with open(os.path.join(runner, "Cargo.toml"), "w") as f:
+            f.write('[package]\nname = "verif-native-runner"\nversion = "0.0.0"\nedition = "2021"\n\n[dependencies]\n'
+                    'jsonpath-rust = { path = "../native-crate", features = [' + ", ".join(f'"{b}"' for b in on) + '] }\n\n'
+                    '[profile.dev]\nopt-level = 1\noverflow-checks = true\ndebug = false\n')
+        with open(os.path.join(TARGET, ".verif-lock"), "w") as lk:
+            fcntl.flock(lk, fcntl.LOCK_EX)
+            p = subprocess.run(["cargo", "build", "--offline", "-q"], cwd=runner, env=env, capture_output=True, text=True)
+            if p.returncode == 0:
+                shutil.copy2(os.path.join(TARGET, "debug", "verif-native-runner"), os.path.join(run.scratch, "verif-native-runner"))
+            fcntl.flock(lk, fcntl.LOCK_UN)
+        return p
+
+    on = list(BUCKETS)
+    p = attempt(on)
+    dropped = []
+    while p.returncode != 0 and on:
+        # drop the buckets whose source files the errors point at; if none can be told, drop them all (public-API groups only)
+        blamed = [b for b in on if any(re.search(r"-->\s*\S*" + re.escape(f), p.stderr) for f in BUCKETS[b])]
+        if not blamed:
+            blamed = list(on)
+        for b in blamed:
+            on.remove(b)
+            dropped.append(b)
+        p = attempt(on)
     run.native_build_s = time.time() - t0
     if p.returncode != 0:
         run.undecided.append("native back end does not build against this tree: " + p.stderr[-600:].replace("\n", " | "))
         return None
+    run._native_dropped = dropped
+    if dropped:
+        run.notes.append("bounded groups that call private functions of " + ", ".join(sorted({f for b in dropped for f in BUCKETS[b]})) +
+                         " were left out: they do not compile against this tree (a signature changed)")
     run._native_bin = os.path.join(run.scratch, "verif-native-runner")
     return run._native_bin
 
@@ -182,6 +212,10 @@ def run_for(run):
         return
     ev = run.bounded
     for (g, prefixes), r in zip(spec, res):
+        if r.get("unavailable"):
+            run.undecided.append(f"bounded group {g}: not available against this tree (it calls private functions of {', '.join(BUCKETS.get(r['unavailable'], [r['unavailable']]))}, "
+                                 f"whose signatures changed); its obligations {prefixes} are undecided")
+            continue
         ev["evaluations"] = ev.get("evaluations", 0) + r["evaluations"]
         ev["distinct_nontrivial"] = ev.get("distinct_nontrivial", 0) + r["distinct_nontrivial"]
         ev.setdefault("bounded_groups", []).append({"group": g, "evaluations": r["evaluations"], "distinct_nontrivial": r["distinct_nontrivial"],
